@@ -273,3 +273,27 @@ func trunc(s []string, n int) []string {
 	}
 	return s
 }
+
+// StripTable removes every trace of one table from a dump (its rows in
+// sys_pages and sys_schema and its own dump): used when a CREATE TABLE was in
+// flight at a crash, where the property says nothing about that table.
+func StripTable(tables []proto.TableDump, name string) []proto.TableDump {
+	var out []proto.TableDump
+	for _, t := range tables {
+		if t.Name == name {
+			continue
+		}
+		if t.Name == "sys_pages" || t.Name == "sys_schema" {
+			nt := proto.TableDump{Name: t.Name, Cols: t.Cols, Err: t.Err}
+			for _, r := range t.Rows {
+				if len(r.Vals) > 0 && r.Vals[0].K == 's' && r.Vals[0].S == name {
+					continue
+				}
+				nt.Rows = append(nt.Rows, r)
+			}
+			t = nt
+		}
+		out = append(out, t)
+	}
+	return out
+}
